@@ -1398,8 +1398,16 @@ class Interp:
         if not uses_target:
             cfr = Frame(fr.fn, fr.mod, parent=fr)
             cfr.self_obj = fr.self_obj
+            serial0 = Q.LRef.serial_counter
             r.const_elt = self.eval(st, e.elt, cfr)
             r.getter = lambda i, v=r.const_elt: v
+            if type(r.const_elt) is LRef and r.const_elt.serial > serial0:
+                # the element expression builds a new list on every evaluation: `[[c] * w for _ in range(h)]` is a
+                # nested list of h distinct rows with equal content -> rows held by value (see seqs.fresh_seq)
+                row = Q.row_value(r.const_elt)
+                r.const_elt = row
+                r.shape = S.ListOf(getattr(row, "shape", None))
+                r.getter = lambda i, v=row: v
         return r
 
     def _sym_filter(self, st, e, fr, seq):
